@@ -64,6 +64,12 @@ CHECKS["C19"] = dict(
     text="Every sequence (up to the completed depth) of content changes, entitlement changes, child removal/re-add at the parent, publisher removal/re-add at the server, suspension, child/parent/CA removal, key-roll steps and restarts: for every CA and parent the status shows failure (with exactly the error of the attempt) iff the most recent attempt failed, otherwise the entitlements of the parent's last list response; the published-object list equals the server's list reply after the last successful sync; the parent shows the outcome of the child's last request; a restart changes no status field; removal of parent/child/CA removes the entries (also from storage).",
     note=E1_NOTE + " Local exchanges bypass CMS, so one-sided identity replacement cannot fail here (C12 covers the signed path).")
 
+CHECKS["C17"] = dict(
+    engine="E4", category="model_checking", design="4/C17",
+    technique="bounded-exhaustive enumeration of (ROA set, announcement set, held resources, scope limit, duplicate variant) inputs on the real analyser (real RISwhois text parser and prefix tree via hook H4) compared with a brute-force RFC 6811 validator: verdict per announcement, per-ROA authorises/disallows attribution, and validity preservation when all suggestions are followed",
+    text="Every ROA set of at most 2 (thorough: 3) ROAs and every announcement set of at most 2 (thorough: 3) announcements over nested-prefix universes (IPv4 /22../24 under a /8 plus an outside prefix; IPv6 /46../48 under a /32; edge: /0, /1, /31, /32, ::/0, /127, /128), max lengths at prefix length / in between / family maximum, ROA origins {0,1,2}, announcement origins {1,2,3}, held resources {all, half}, scope limits {none, half, quarter}, duplicated ROA configuration / duplicated RISwhois line: each announcement in the CA's resources gets the RFC 6811 verdict (valid / invalid / not found), each reported ROA's authorises and disallows sets equal the brute-force attribution, and removing/replacing all ROAs as suggested leaves every valid announcement valid.",
+    note="Sub-kinds of invalid (length/ASN/AS0) are not distinguished. Announcements with origin AS0 are not in the alphabet. Announcements outside the CA's resources or outside the requested scope carry no obligation (the property does not speak about them). The seen-by threshold of the RISwhois parser is always exceeded. Replay: kcheck C17 --replay <file>.")
+
 CHECKS["C10"] = dict(
     engine="E1", category="model_checking", design="4/C10",
     technique="explicit-state exploration (fork-checkpointed DFS) of publication-delta sequences from several publishers on the real RepositoryManager against a per-publisher reference map",
